@@ -131,10 +131,12 @@ class SSeq:
 
 
 class FmtInt:
-    """Canonical decimal rendering of an integer term (`str(n)`, `'%d' % n`)."""
+    """Canonical decimal rendering of an integer term (`str(n)`, `'%d' % n`); `width` > 0 means
+    zero-padded to at least that many digits (`'%04d' % n`)."""
 
-    def __init__(self, term):
+    def __init__(self, term, width=0):
         self.term = term
+        self.width = width
 
     def __repr__(self):
         return "FmtInt(%s)" % self.term
@@ -200,7 +202,7 @@ class SStr:
                 ts.append(z3.StringVal(p))
             elif isinstance(p, Atom) and p.zs is not None:
                 ts.append(p.zs)
-            elif isinstance(p, FmtInt):
+            elif isinstance(p, FmtInt) and not p.width:
                 t = p.term
                 ts.append(z3.If(t >= 0, z3.IntToStr(t), z3.Concat(z3.StringVal("-"), z3.IntToStr(-t))))
             else:
@@ -595,10 +597,16 @@ def model(obj):
     return deco
 
 
+MODELS_BY_NAME = {}  # qualified name of a builtin method (e.g. 'datetime.strptime', 'Pattern.match') -> handler
+
+
 def lookup_model(func):
     h = MODELS.get(id(func))
     if h is not None:
         return h
+    qn = getattr(func, "__qualname__", None)
+    if qn in MODELS_BY_NAME and isinstance(func, (types.BuiltinFunctionType, types.BuiltinMethodType)):
+        return lambda it, a, k, func=func, h=MODELS_BY_NAME[qn]: h(it, func, a, k)
     # bound builtin methods / classmethods are recreated on each access
     f2 = getattr(func, "__func__", None)
     if f2 is not None:
@@ -1499,6 +1507,8 @@ class Interp:
                     raise PyRaise(TypeError, ("%d format: a real number is required",))
             elif conv == "r":
                 parts.append(self.to_repr(a))
+            elif conv in "di" and len(spec) == 2 and spec[0] == "0" and spec[1].isdigit() and is_z3(a) and (z3.is_int(a) or z3.is_bool(a)):
+                parts.append(FmtInt(to_int(a), width=int(spec[1])))
             else:
                 parts.append(Atom("fmt(%s%s)" % (spec, conv)))
             i = k + 1
@@ -2001,7 +2011,7 @@ def str_eq(a, b):
                 if x != y:
                     acc = None
                     break
-            elif isinstance(x, FmtInt) and isinstance(y, FmtInt):
+            elif isinstance(x, FmtInt) and isinstance(y, FmtInt) and x.width == y.width:
                 acc = _and(acc, x.term == y.term)
             elif isinstance(x, FmtReal) and isinstance(y, FmtReal):
                 acc = _and(acc, x.term == y.term)
